@@ -164,26 +164,53 @@ def exact(rng, tier):
 
 @bounded('C17.icp', functions=['pypose.module.icp:ICP.forward'])
 def icp(rng, tier):
-    """ICP: result never has a larger mean squared closest-point distance than the initial transform; recovers small exact perturbations"""
+    """ICP: result never has a larger mean squared closest-point distance than the initial transform; recovers small exact perturbations.
+    Clouds at the origin and far from it (map / UTM-like coordinates: |centre| up to 4e6 with metre-size clouds, float64; a few hundred units,
+    float32) - the closest-point search must not lose the point spacing against the coordinate magnitude.  Distances of the oracle are
+    computed from explicit differences (never from the |a|^2+|b|^2-2ab expansion)."""
     import torch, pypose as pp
-    N = 12 if tier == 'quick' else 150
+    N = 15 if tier == 'quick' else 150
     fails = []; samples = []
     g = torch.Generator().manual_seed(rng.randrange(1 << 30))
     def msd(a, b):
-        d = torch.cdist(a, b); return float((d.min(-1).values ** 2).mean())
+        d = (a.double().unsqueeze(-2) - b.double().unsqueeze(-3)).norm(dim=-1); return float((d.min(-1).values ** 2).mean())
+    floor_of = lambda eps, centre, size: (100 * eps * max(float(centre.norm()), size)) ** 2
+    regimes = [(torch.float64, 0.0, 1.0), (torch.float64, 1e3, 1.0), (torch.float64, 4.4e6, 2.0), (torch.float32, 0.0, 1.0), (torch.float32, 300.0, 1.0)]
     for k in range(N):
-        n = rng.choice([30, 100])
-        tgt = torch.randn(n, 3, dtype=torch.float64, generator=g)
-        X = pp.se3(torch.cat([0.05 * torch.randn(3, dtype=torch.float64, generator=g), 0.05 * torch.randn(3, dtype=torch.float64, generator=g)])).Exp()
-        src = X.Inv().Act(tgt)
+        dt, off, size = regimes[k % len(regimes)]
+        eps = torch.finfo(dt).eps
+        dense = off > 0 and (k // len(regimes)) % 2 == 0          # dense scans: point spacing of centimetres inside a metre-size cube
+        n = 300 if dense else rng.choice([30, 100])
+        centre = off * torch.tensor([0.1, 1.0, 3e-5], dtype=torch.float64) if off else torch.zeros(3, dtype=torch.float64)
+        if dense:
+            tgt64 = centre + size * torch.rand(n, 3, dtype=torch.float64, generator=g)
+            X = pp.se3(torch.cat([0.01 * size * torch.randn(3, dtype=torch.float64, generator=g), 0.006 * torch.randn(3, dtype=torch.float64, generator=g)])).Exp()
+        else:
+            tgt64 = centre + size * torch.randn(n, 3, dtype=torch.float64, generator=g)
+            X = pp.se3(torch.cat([0.05 * size * torch.randn(3, dtype=torch.float64, generator=g), 0.05 * torch.randn(3, dtype=torch.float64, generator=g)])).Exp()
+        # perturbation about the cloud centre (a small rigid motion of the cloud, whatever its distance from the origin)
+        src64 = X.Inv().Act(tgt64 - centre) + centre
+        src, tgt = src64.to(dt), tgt64.to(dt)
         icp_ = pp.module.ICP()
         Y = icp_(src, tgt)
         before, after = msd(src, tgt), msd(Y.Act(src), tgt)
-        if after > before * (1 + 1e-9) + 1e-15: fails.append(dict(clause='icp_not_worse', signature=f'k={k}', before=before, after=after))
-        if after > 1e-10: fails.append(dict(clause='icp_recovers_small_perturbation', signature=f'k={k}', after=after))
-        if k < 2: samples.append(dict(n=n, before=before, after=after))
-    return dict(evaluations=N, distinct_nontrivial=N, rule='random clouds, exact rigid perturbation of 0.05 rad / 0.05 units; distinct by seed', bound='30..100 points, perturbation 0.05',
-                failures=fails[:6], samples=samples)
+        floor = (100 * eps * max(float(centre.norm()), size)) ** 2          # coordinates carry eps*|c| of round-off
+        sig = f'{str(dt).split(".")[-1]}/offset={off:g}' + ('/dense' if dense else '')
+        if dense and dt == torch.float64:
+            # started at the exact transform the result must not be worse than that
+            c_ = centre
+            Rm = X.rotation().matrix(); tt = X.translation() + c_ - Rm @ c_
+            Tinit = pp.SE3(torch.cat([tt, X.rotation().tensor()]))
+            Y2 = pp.module.ICP()(src, tgt, init=Tinit)
+            b2, a2 = msd(Tinit.Act(src), tgt), msd(Y2.Act(src), tgt)
+            if a2 > b2 * (1 + 1e-6) + floor_of(eps, centre, size): fails.append(dict(clause='icp_not_worse_from_exact_init', signature=sig, before=b2, after=a2, n=n))
+        if after > before * (1 + 1e-6) + floor: fails.append(dict(clause='icp_not_worse', signature=sig, before=before, after=after, n=n))
+        if after > max(1e-10 * size ** 2, floor): fails.append(dict(clause='icp_recovers_small_perturbation', signature=sig, after=after, floor=floor, n=n))
+        if k < 5: samples.append(dict(regime=sig, n=n, before=before, after=after, floor=floor))
+    uniq = {}
+    for f in fails: uniq.setdefault((f['clause'], f['signature']), f)
+    return dict(evaluations=N, distinct_nontrivial=N, rule='random clouds at |centre| in {0, 1e3, 4.4e6} (float64) and {0, 300} (float32), exact rigid perturbation of 0.05 rad / 0.05 cloud sizes; distinct by seed',
+                bound='30..100 points, perturbation 0.05', failures=list(uniq.values())[:6], samples=samples)
 
 
 @bounded('C17.epnp', functions=['pypose.module.pnp:EPnP.forward'])
